@@ -18,6 +18,7 @@ RULE = ("Complete enumeration of the shipped tables at run time: every key of no
         "them.  Non-trivial: elements whose minimal tree has >= 2 nodes, and (rule, child) pairs; distinct items counted.")
 RULE += ('  Every (element, permitted child) pair of the tables is placed in a minimal valid tree of its own, which validate.tree must accept; the rule accessors are exercised (and their answers edited) before the tables are re-read.')
 RULE += ('  Failure paths (metadata sections with 0 / 2 / 3 children validated and pruned in every mode) are exercised before the tables are re-read.')
+RULE += ("  Every rule of the table (also rules no element maps to) is probed with canonical content in both modes: the answer must never be 'content rule not recognised'.")
 ASSUMPTIONS = [
     "implemented content-rule names are those dispatched in rule.py (also checked behaviourally: no UNKNOWN_CONTENT_RULE)",
     "a rule is reachable when some known element maps to it",
